@@ -224,15 +224,19 @@ func callVariant(fg *promapi.FailoverGroup, endpoint string, slices, variant int
 	return a
 }
 
-// Known-finding class "5xx-json-error-type-not-server-error": an upstream answers a 5xx status with a complete JSON
-// error envelope whose errorType is not "server_error" (Prometheus itself says "internal" with 500 and "unavailable"
-// with 503). By the statement a 5xx is a server error whatever the body says; pint goes by the errorType alone.
-// Decided from the case: the mode of the upstream concerned is http:5xx:json-<type other than server_error>.
-const class5xxJSON = "5xx-json-error-type-not-server-error"
+// Fixed finding C15-F (commit 31adc3a), class "5xx-json-named-error-type": a 5xx status with a complete JSON error
+// envelope naming an errorType other than "server_error" (Prometheus says "internal" with 500, "unavailable" with
+// 503) used to be classified by that name alone and was no outage. Such modes are now plain "unavailable" cells.
+//
+// Residual known-finding class "5xx-json-envelope-without-error-type": a 5xx status with a complete JSON envelope
+// that has no (or an empty) errorType stays ErrUnknown (pinned by pint's own script test 0170), i.e. is not treated
+// as an outage although the status class says server error. Decided from the case only: the mode of the upstream
+// concerned is http:<5xx>:jsonnotype.
+const class5xxJSON = "5xx-json-envelope-without-error-type"
 
-func is5xxJSONOther(m fakeprom.Mode) bool {
+func is5xxJSONOther(m fakeprom.Mode) bool { // the residual class
 	code, body, ok := m.HTTP()
-	return ok && code/100 == 5 && strings.HasPrefix(body, "json-") && body != "json-server_error"
+	return ok && code/100 == 5 && body == "jsonnotype"
 }
 
 // tolerate5xxJSON: the class is listed as a known finding, so such an upstream may be treated either way (the
@@ -331,6 +335,10 @@ func checkError(err error, i int, m fakeprom.Mode, url string, required bool) er
 	}
 	if code, body, ok := m.HTTP(); ok {
 		switch {
+		case body == "jsonnotype":
+			if !strings.Contains(err.Error(), m.ErrorText(i)) {
+				return fmt.Errorf("upstream %d answered %d with the JSON error text %q; returned error does not carry it: %v", i, code, m.ErrorText(i), err)
+			}
 		case strings.HasPrefix(body, "json-") && code/100 == 4:
 			var ae promapi.APIError
 			if !errors.As(err, &ae) || ae.Err != m.ErrorText(i) {
@@ -932,7 +940,7 @@ func modeNames() []string {
 // status codes of the two error classes (registered with net/http or not) and the body kinds they come with
 var (
 	codes5xx  = []int{500, 502, 503, 504, 507, 509, 520, 521, 522, 523, 524, 525, 526, 527, 530, 598, 599}
-	bodies5xx = []string{"empty", "html", "text", "truncjson", "json-server_error", "json-internal", "json-unavailable"}
+	bodies5xx = []string{"empty", "html", "text", "truncjson", "json-server_error", "json-internal", "json-unavailable", "json-not_found", "jsonnotype"}
 	codes4xx  = []int{400, 401, 403, 404, 408, 413, 422, 429, 499}
 	bodies4xx = []string{"empty", "html", "text", "truncjson", "json-bad_data", "json-execution"}
 )
